@@ -4,6 +4,7 @@ import (
 	"go/ast"
 	"go/token"
 	"go/types"
+	"golang.org/x/tools/go/ssa"
 	"strings"
 )
 
@@ -71,6 +72,20 @@ func c11Provenance(r *Run) {
 					if len(defs) == 1 {
 						if ta, isTA := unparen(defs[0]).(*ast.TypeAssertExpr); isTA && ta.Type != nil && isBasicKind(info.Types[ta.Type].Type, types.Int) && isParam(objOf(info, ta.X)) {
 							ok = true
+						}
+					}
+				}
+				if !ok {
+					// on the SSA form: also through a validating helper that hands the asserted index back
+					if fn := w.SSAFunc(f); fn != nil {
+						for _, b := range fn.Blocks {
+							for _, ins := range b.Instrs {
+								if sc, isCall := ins.(*ssa.Call); isCall && sc.Pos() == c.Lparen {
+									if _, args, isIdx := reflectValueCall(sc, "Index"); isIdx && len(args) == 1 {
+										ok = indexProvenanceSSA(w, fn, args[0], 0)
+									}
+								}
+							}
 						}
 					}
 				}
@@ -314,45 +329,7 @@ func c11PointerTransparency(r *Run) {
 	} else {
 		r.Bad("R4", id.Name(), "pointer-typed field", w.Pos(id.Decl.Pos()), "a pointer field must be followed transparently")
 	}
-	// call: two MethodByName lookups, the second on a fresh pointer under '!valid && not already a pointer'
-	cinfo := ce.Pkg.TypesInfo
-	var lookups []*ast.CallExpr
-	for _, c := range callsIn(ce.Decl.Body, true) {
-		if isReflectValueMethod(cinfo, c, "MethodByName") {
-			lookups = append(lookups, c)
-		}
-	}
-	if len(lookups) == 2 {
-		second := lookups[1]
-		guard := false
-		for p := w.Parent(second); p != nil; p = w.Parent(p) {
-			if ifs, ok := p.(*ast.IfStmt); ok {
-				hasInvalid, hasNotPtr := false, false
-				for _, cj := range conjuncts(ifs.Cond) {
-					if u, ok := unparen(cj).(*ast.UnaryExpr); ok && u.Op == token.NOT {
-						if c, ok := unparen(u.X).(*ast.CallExpr); ok && isReflectValueMethod(cinfo, c, "IsValid") {
-							hasInvalid = true
-						}
-					}
-					if be, ok := unparen(cj).(*ast.BinaryExpr); ok && be.Op == token.NEQ {
-						if k, _ := constInt(cinfo, be.Y); k == kPtr {
-							hasNotPtr = true
-						}
-					}
-				}
-				if hasInvalid && hasNotPtr {
-					guard = true
-				}
-			}
-		}
-		if guard {
-			r.Ok("R4", ce.Name(), "method lookup on the value, then on a pointer to it", w.Pos(second.Pos()), "second lookup under '!found && receiver is not already a pointer'")
-		} else {
-			r.Bad("R4", ce.Name(), "second method lookup", w.Pos(second.Pos()), "pointer-receiver methods must be callable on values: the second lookup must run exactly when the first failed and the receiver is not a pointer")
-		}
-	} else {
-		r.Bad("R4", ce.Name(), "method lookups", w.Pos(ce.Decl.Pos()), "methods must be looked up on the value and then on a pointer to it")
-	}
+	c11MethodLookupSSA(r, "R4")
 }
 
 func c11ParserWiring(r *Run) {
@@ -440,6 +417,16 @@ func c11NoNavigationCache(r *Run) {
 					rel := relOf(w, p.PkgPath)
 					if rel == "parser" || rel == "lexer" {
 						continue
+					}
+					// a reflect.Type that only the variable's initialiser ever writes is a constant
+					// (types are immutable), not a cache of what a navigation looked at
+					if namedIs(v.Type(), "reflect", "Type") {
+						if sp := w.SSA().Package(p.Types); sp != nil {
+							if g, ok := sp.Members[n].(*ssa.Global); ok && w.globalInitStore(g) != nil {
+								r.Ok("R6", p.Name+"."+n, "package-level reflect.Type constant", w.Pos(v.Pos()), "written by its initialiser only; a reflect.Type is immutable")
+								continue
+							}
+						}
 					}
 					r.Bad("R6", p.Name+"."+n, "package-level cache "+typeStr(v.Type()), w.Pos(v.Pos()), "reflection results cached in package-level state are shared by all templates and executions")
 				}
